@@ -9,6 +9,7 @@ python3 standard library only."""
 import hashlib
 import json
 import os
+import re
 import time
 
 from vlib import core
@@ -36,7 +37,7 @@ def witnesses():
             s = json.dumps(cfg, sort_keys=True)
             if s not in seen:
                 seen.add(s)
-                out.append(cfg)
+                out.append(dict(cfg, witness_of=[k.get('property'), k.get('key')]))
     return out
 
 
@@ -81,12 +82,29 @@ def monitor(ctx, pid, focus=None, timeout=1500):
 def report_all(ctx, pid, recs):
     """ctx.report for every record of this property; returns (#violations, #known)."""
     nv = nk = 0
+    known_keys = {k['key'] for k in ctx.known if k.get('property') == pid}
+    got = {r['key'] for r in recs if r['property'] == pid}
+
+    def strip_sites(k):
+        # keys name the functions where a failure was observed / caused; a harmless rename or extraction moves those names
+        return re.sub(r'\b[a-z_]\w*\.[A-Za-z_]\w*\b', '*', k)
     for r in recs:
         if r['property'] != pid:
             continue
         replay_doc = {k: r[k] for k in ('property', 'key', 'what', 'optimizer', 'config', 'observed', 'expected') if k in r}
         replay_doc['harness'] = 'srun_replay.py'
-        res = ctx.report(r['key'], r['what'], replay_doc)
+        key, what = r['key'], r['what']
+        if key not in known_keys:
+            # a recorded finding is identified by its witness INPUT as well: if the witness configuration of a known finding that did
+            # not re-appear under its own key now fails in the same way at another site, it is that finding (functions were renamed / split)
+            for wp, wk in r.get('from_witnesses') or []:
+                if wp == pid and wk in known_keys and wk not in got and strip_sites(wk) == strip_sites(key):
+                    what = '%s [recorded as %s: the same witness input fails in the same way, the site is now reported as %s]' % (what, wk, key)
+                    replay_doc['key'] = wk
+                    key = wk
+                    got.add(wk)
+                    break
+        res = ctx.report(key, what, replay_doc)
         if res == 'known':
             nk += 1
         else:
